@@ -216,8 +216,14 @@ func appendSnapshotFlavors(b []byte, s *slip.Scope) []byte {
 			fa = append(fa, f)
 		}
 	}
+	// A flavor has more ancestors than any flavor it inherits from so this
+	// order puts components first and is the same for every snapshot.
 	sort.Slice(fa, func(i, j int) bool {
-		return fa[j].Inherits(fa[i])
+		di, dj := len(fa[i].InheritsList()), len(fa[j].InheritsList())
+		if di != dj {
+			return di < dj
+		}
+		return fa[i].Name() < fa[j].Name()
 	})
 	for _, f := range fa {
 		b = append(b, '\n')
